@@ -156,6 +156,16 @@ def evaluate(assign, drift_idx, T, M, cls, layout='Li'):
                 viols.append(('injected-rigid-drift-not-removed', f'{fname}: max dev {np.max(np.abs(np.array(c1.displacements) - d0))}'))
         except Exception as e:  # noqa: BLE001
             viols.append((f'second-correction-raise-{type(e).__name__}', f'{fname}: {e}'))
+    # correcting an already corrected trajectory with respect to ANOTHER reference set
+    try:
+        tq = concretise.make_trajectory(wrap(x), SYMS, M, time_step=2e-15, species_cls=cls)
+        c_all = tq.apply_drift_correction()
+        c_s = c_all.apply_drift_correction(fixed_species='S')
+        ds = np.array(c_s.displacements)
+        if np.max(np.abs(ds[:, [1, 3], :].mean(axis=1))) > 1e-12:
+            viols.append(('second-correction-with-other-reference-has-no-effect', f'{np.abs(ds[:, [1, 3], :].mean(axis=1)).max()}'))
+    except Exception as e:  # noqa: BLE001
+        viols.append((f'second-correction-other-reference-raise-{type(e).__name__}', str(e)))
     # a drift array handed out earlier belongs to the caller: editing it must not change later answers
     try:
         tq = concretise.make_trajectory(wrap(xd), SYMS, M, time_step=2e-15, species_cls=cls)
